@@ -839,9 +839,13 @@ func (self *_Compiler) compilePtr(p *_Program, sp int, et reflect.Type) {
 	p.add(_OP_is_null)
 
 	/* dereference all the way down */
+	named := false
 	for et.Kind() == reflect.Ptr {
 		if self.checkMarshaler(p, et, 0, true) {
 			return
+		}
+		if et.Name() != "" {
+			named = true
 		}
 		et = et.Elem()
 		p.rtt(_OP_deref, et)
@@ -859,7 +863,13 @@ func (self *_Compiler) compilePtr(p *_Program, sp int, et reflect.Type) {
 		/* not inline the pointer type
 		 * recursing the defined pointer type's elem will cause issue379.
 		 */
-		self.compileOps(p, sp, et)
+		if named && et.Kind() == reflect.Struct {
+			/* a defined pointer type has no methods: its struct is decoded field by field at
+			 * every depth, a recursion record would look up the unmarshalers of *S again */
+			self.compileStructBody(p, sp, et)
+		} else {
+			self.compileOps(p, sp, et)
+		}
 	}
 	delete(self.tab, et)
 
